@@ -109,3 +109,122 @@ REG['C02'] = {
         dict(id='c02_lunar_side', check='c02_lunar_side', range=(0, 9999), chunks=64, exhaustive=True, domain='every lunar day of lunar years 0..9999 + day 0 / count+1; order over 3-month windows', clause='lunar -> civil -> lunar identity; acceptance; before/after == chronological'),
     ],
 }
+
+
+REG['C19'] = {
+    'level': 'proof',
+    'design_ref': '5/C19',
+    'technique': 'Kani harnesses with the index symbolic over each finite domain against an independent rule encoding (spec/classical_p.rs) + complete enumeration by native execution of every getter',
+    'level_text': 'Finite domains, decided completely. Deductive part (Kani, real getters compiled in place, index symbolic over the whole domain): stem element/directions/rhymes, ten-star (10x10), five/six combinations, clash, harm, hidden main stem, branch element/direction/zodiac/ominous. Complete enumeration by execution (class L, exhaustive = the whole domain): ALL attributes incl. those whose Kani harness exceeds the solver budget (growth stages 10x12, polarity, hidden middle/residual stems, Nayin, Xun, void branches, 28 mansions, nine stars, foetus tables, 366 zodiac-sign days, involution / inverse-pair laws).',
+    'level_note': 'oracle = spec/classical_p.rs, written from the classical rules quoted in its comments, not copied from the library tables; name tables themselves (e.g. SOUND_NAMES strings) are data and not compared with an outside source; harnesses c19_k_terrain*, c19_k_stem_polarity, c19_k_branch_hide_middle/residual time out in CBMC (string-based enum equality) and are replaced by the exhaustive run',
+    'functions': ['HeavenStem::get_element/get_yin_yang/get_direction/get_joy_direction/get_yang_direction/get_yin_direction/get_wealth_direction/get_mascot_direction/get_terrain/get_ten_star/get_combine/combine',
+                  'EarthBranch::get_element/get_hide_heaven_stem_*/get_zodiac/get_direction/get_opposite/get_ominous/get_combine/combine/get_harm',
+                  'SixtyCycle::get_heaven_stem/get_earth_branch/get_sound/get_ten/get_extra_earth_branches', 'Element::*', 'Direction::get_element', 'NineStar::*', 'TwentyEightStar::*', 'TwelveStar::get_ecliptic', 'FetusDay::new', 'SolarDay::get_constellation', 'MinorRen::*'],
+    'K': [
+        dict(id='c19_k', prefix=True, min_count=18, exclude=['c19_k_stem_polarity', 'c19_k_branch_hide_middle', 'c19_k_branch_hide_residual'] + ['c19_k_terrain_s%02d' % i for i in range(10)],
+             fn='HeavenStem / EarthBranch getters', clause='getter(index) == first-principles rule(index) for every index of the domain',
+             paired_leaf=dict(check='c19_attributes', range=(0, 0), chunks=1)),
+    ],
+    'L': [
+        dict(id='c19_attributes', check='c19_attributes', range=(0, 0), chunks=1, exhaustive=True, domain='10 stems, 12 branches, 10x10, 10x12, 12x12 pairs, 60 pillars, 9 stars, 28 mansions, 366 month-days',
+             clause='every attribute getter == first-principles encoding; relations are involutions / inverse pairs'),
+    ],
+}
+
+REG['C11'] = {
+    'level': 'proof',
+    'design_ref': '5/C11',
+    'technique': 'Verus on AbstractCulture::index_of (symbolic size) and LunarMonth::next + group lemmas; generated Kani harness per cyclic type; Kani on every year/index carry pattern; execution for name lookups and object-heavy linear units',
+    'level_text': 'Deductive part: index_of == Euclidean remainder for every isize index and every size (Verus, extracted verbatim) with the group laws as lemmas; for each cyclic type found in the sources (generated harness list) from_index(i).index == i mod size for every isize and next(n).index == (index+n) mod size (Kani); half-year/season/month/term/year stepping moves the ordinal by exactly n (Kani); lunar-month stepping by exactly n for any leap table (Verus, C03 unit); day/instant stepping from C01/C12. Leaf part (execution): index<->name inverse for every index of 41 types, unknown names refused; weeks, lunar hours, sexagenary units, fortunes stepped over windows.',
+    'level_note': 'cycle harnesses of the six largest tables (God, Taboo, SixtyCycle, Phenology, Phase, Sound) run in the thorough tier only (2-12 min each); quick covers them by the name/step execution run; PHASE_NAMES repeats names by upstream design: 7 known findings for the name->index inverse',
+    'functions': ['AbstractCulture::index_of', 'LoopTyme::from_index/next_index (through every cyclic type)', '<41 cyclic types>::from_index/next/get_index/get_size', 'SolarYear/SolarHalfYear/SolarSeason/SolarMonth::next', 'SolarTerm::next', 'LunarMonth::next', 'JulianDay::next'],
+    'K': [
+        dict(id='c11_cycle', prefix=True, min_count=30, thorough_names=['c11_cycle_god', 'c11_cycle_taboo', 'c11_cycle_sixtycycle', 'c11_cycle_phenology', 'c11_cycle_phase', 'c11_cycle_sound'],
+             fn='<cyclic type>::from_index / next', clause='from_index(i).index == i mod size for every isize i; next(n).index == (index + n) mod size; size == table length',
+             paired_leaf=dict(check='c11_names', range=(0, 0), chunks=1)),
+        dict(id='c11_k_year_next', fn='SolarYear::next', clause='year moves by n'),
+        dict(id='c11_k_halfyear_next', fn='SolarHalfYear::next', clause='2*year+index moves by exactly n (target year in 1..9999)'),
+        dict(id='c11_k_season_next', fn='SolarSeason::next', clause='4*year+index moves by exactly n'),
+        dict(id='c11_k_month_next', fn='SolarMonth::next', clause='12*year+month-1 moves by exactly n'),
+        dict(id='c06_k_next', fn='SolarTerm::next', clause='24*year+index moves by exactly n'),
+        dict(id='c11_k_jd_next', thorough_only=True, fn='JulianDay::next / subtract', clause='f64 addition of n days is exact for |n| < 2^31 on half-integral dates'),
+    ],
+    'V': [
+        dict(id='c11_index_of', template='verus/c11_index_of.rs', twin_quick=True,
+             twin=[('ensures r == (index as int) % (size as int), 0 <= r < size,', 'ensures r == (index as int) % (size as int) + 1, 0 <= r < size,')],
+             clause='index_of(index, size) == index mod size (Euclidean) for all isize/usize; group laws of modular stepping'),
+        dict(id='c03_month_step', template='verus/c03_month_step.rs', clause='LunarMonth::next moves the month ordinal by exactly n'),
+    ],
+    'L': [
+        dict(id='c11_names', check='c11_names', range=(0, 0), chunks=1, exhaustive=True, domain='every index of 41 cyclic types + one unknown name each', clause='from_name(from_index(i).get_name()).index == i; unknown names refused'),
+        dict(id='c11_linear', check='c11_linear', range=(1, 9998), chunks=64, domain='one value per year of each linear unit x step pairs', clause='next(0)==x, next(a).next(b)==next(a+b), next(a).next(-a)==x and unit size for weeks, lunar days/hours, sexagenary year/month/day/hour, terms, festivals'),
+    ],
+}
+
+REG['C12'] = {
+    'level': 'proof',
+    'design_ref': '5/C12',
+    'technique': 'Verus on SolarTime::next / subtract extracted verbatim; Kani on ordering, validation and the instant->JD->instant round trip through the f64 chain (sliced); grid execution for fractional Julian dates',
+    'level_text': 'Deductive part: adding n seconds moves the absolute second by exactly n for every instant and |n| <= 4e11 (Verus, real carries; day part by the C01 day-stepping contract, hence across months, years and the 1582 gap); difference == distance in seconds (Verus); before/after == lexicographic (date, second-of-day) (Kani); acceptance of clock fields (Kani); instant -> Julian date -> instant identity for all 86,400 seconds of every date (Kani, f64 bit-precise; quick: stated subset of 100 year-slices, thorough: all). Leaf part (bounded): fractional Julian dates on a fine grid around every rounding/carry boundary yield a valid instant within half a second.',
+    'level_note': 'E8 desugaring of `x %= 60` in the Verus extraction; arbitrary-fraction JD->instant is bounded (grid), not proved; the last half second of 9999-12-31 rounds to year 10000 and is refused (outside the claim)',
+    'functions': ['SolarTime::next', 'SolarTime::subtract', 'SolarTime::is_before/is_after/eq', 'SolarTime::new', 'SolarTime::get_julian_day', 'JulianDay::from_ymd_hms', 'JulianDay::get_solar_time'],
+    'K': [
+        dict(id='c12_k_time_order', fn='SolarTime::is_before / is_after / eq', clause='strict lexicographic order on (date, second of day)'),
+        dict(id='c12_k_time_accept', fn='SolarTime::new', clause='accepted <=> hour<24, minute<60, second<60 (valid date)'),
+        dict(id='c12_k_time_subtract', thorough_only=True, fn='SolarTime::subtract', clause='== 86400*day difference + difference of seconds of day (Kani cross-check of the Verus obligation)'),
+        dict(id='c12_k_jd_roundtrip', sliced=True, quick=dict(boundary=['v:1582', -1], sample=6), fn='SolarTime::get_julian_day / JulianDay::get_solar_time',
+             clause='t.get_julian_day().get_solar_time() == t for every valid date and every second of the day',
+             paired_leaf=dict(check='c12_roundtrip', range=(1, 9999), chunks=32)),
+    ],
+    'V': [
+        dict(id='c12_time_next', template='verus/c12_time_next.rs', twin_quick=True,
+             twin=[('ensures r.wf(), r.abs() == self.abs() + n,', 'ensures r.wf(), r.abs() == self.abs() + n + 1,')],
+             clause='SolarTime::next: absolute second moves by exactly n; SolarTime::subtract == difference of absolute seconds',
+             paired_leaf=[dict(id='c12_search', check='c12_step', range=(1, 9999), chunks=32)]),
+    ],
+    'L': [
+        dict(id='c12_step', check='c12_step', range=(1, 9999), chunks=64, domain='boundary + pseudo-random instants per year x offsets up to +-1e9', clause='next(n).subtract(t) == n; order == sign of difference'),
+        dict(id='c12_roundtrip', check='c12_roundtrip', range=(1, 9999), chunks=64, domain='month/year ends and random days x every rounding-critical second', clause='instant -> JD -> instant identity'),
+        dict(id='c12_fraction', check='c12_fraction', range=(1, 9999), chunks=64, domain='JD grid (1/16 s) around hh:59:59.5, 23:59:59.5 on month/year ends and the 1582 gap', clause='any JD in range -> valid instant within 0.5 s'),
+    ],
+}
+
+REG['C13'] = {
+    'level': 'proof',
+    'design_ref': '5/C13',
+    'technique': 'Kani on the civil containers (all years/months symbolic, constant-bound loops with unwinding assertions) + Verus on LunarYear::get_months + execution for lunar/sexagenary lists',
+    'level_text': 'Deductive part: a civil year lists 2 half-years, 4 seasons, 12 months that nest correctly; a month lists exactly the dates that exist in it, in order, count == day count (incl. October 1582) for every year and month (Kani); a lunar year lists exactly its 12/13 months in order (Verus, C03 unit). Leaf part (execution): lunar month -> days, lunar/sexagenary day -> 13/12 double-hour slots, sexagenary year -> months, sexagenary month -> days from its Jie day to the day before the next.',
+    'level_note': 'lunar/sexagenary day and hour objects (RefCell, f64, name tables) are outside both verifiers: execution only, labelled bounded',
+    'functions': ['SolarYear::get_months/get_seasons/get_half_years', 'SolarHalfYear::get_months/get_seasons', 'SolarSeason::get_months', 'SolarMonth::get_season/get_days', 'LunarYear::get_months', 'LunarMonth::get_days (leaf)', 'LunarDay::get_hours (leaf)', 'SixtyCycleDay::get_hours (leaf)', 'SixtyCycleYear::get_months (leaf)', 'SixtyCycleMonth::get_days (leaf)'],
+    'K': [
+        dict(id='c13_k_year_parts', fn='SolarYear / SolarHalfYear / SolarSeason lists', clause='2/4/12 parts in order, nesting correct'),
+        dict(id='c13_k_month_days', fn='SolarMonth::get_days', clause='lists exactly the existing dates of the month in order; count == month length',
+             paired_leaf=dict(check='c13_solar', range=(1, 9999), chunks=32)),
+        dict(id='c01_k7_lengths', fn='SolarMonth::get_day_count / SolarYear::get_day_count', clause='== calendar spec'),
+    ],
+    'V': [
+        dict(id='c03_month_step', template='verus/c03_month_step.rs', clause='LunarYear::get_months lists exactly ordinals mb(y)..mb(y)+msize(y)-1 in order'),
+    ],
+    'L': [
+        dict(id='c13_solar', check='c13_solar', range=(1, 9999), chunks=64, exhaustive=True, domain='every civil year/month', clause='day-of-year and year length agree with the month lists'),
+        dict(id='c13_lunar', check='c13_lunar', range=(0, 9998), chunks=64, domain='every lunar month (days), first/mid/last day of each month (hours), every sexagenary month of every 7th year', clause='lists == their parts'),
+    ],
+}
+
+REG['C07'] = {
+    'level': 'proof',
+    'design_ref': '5/C07',
+    'technique': 'Kani on the weekday formula through the f64 cast (every day number) + Verus lemmas for continuity + exhaustive execution of all three pillar routes over every date',
+    'level_text': 'Deductive part: JulianDay::get_week == (day number + 1) mod 7 for every day number in range (Kani, f64 cast path); +1 per civil day incl. the 1582 cut-over from C01 lemmas. Leaf part (exhaustive execution, every civil date 0001..9999): day pillar == (day number + 49) mod 60 by the lunar-date route, the sexagenary-day view and the civil date; weekday by the civil and lunar routes.',
+    'level_note': 'LunarDay::get_sixty_cycle goes through format!/from_name (out of Kani reach, DESIGN 2.3): its arithmetic and the name lookup are covered by the exhaustive run + the pillar-name table check in C19; known findings: reform-year windows (consequence of C03) and 0001-01-01..05 (year-0 term)',
+    'functions': ['JulianDay::get_week', 'SolarDay::get_week', 'LunarDay::get_week (leaf)', 'LunarDay::get_sixty_cycle (leaf)', 'SixtyCycleDay::from_solar_day / get_sixty_cycle (leaf)'],
+    'K': [
+        dict(id='c07_k_week', sliced=True, quick='all', fn='JulianDay::get_week', clause='index == (N + 1) mod 7 for every integer day number N of 0001-01-01..9999-12-31'),
+    ],
+    'V': [
+        dict(id='c01_v_calendar', template='verus/c01_calendar.rs', clause='day number grows by exactly one per civil day (month/year ends, 1582 cut-over) => pillar and weekday advance one step per day'),
+    ],
+    'L': [
+        dict(id='c07_pillar_week', check='c07_pillar_week', range=(1, 9999), chunks=64, exhaustive=True, domain='every civil date 0001-01-01..9999-12-31', clause='pillar by three routes == (jdn+49) mod 60; weekday by two routes == (jdn+1) mod 7'),
+    ],
+}
